@@ -1167,8 +1167,9 @@ func (w *_listpairsFieldListAssemblerRepr) AssembleValue() datamodel.NodeAssembl
 	case 1:
 		return w.parent.AssembleKey()
 	case 2:
-		asm := w.parent.AssembleValue()
-		return assemblerRepr(asm.(*_assembler))
+		// AssembleValue yields an _errorAssembler for an unknown field name;
+		// assemblerRepr passes it through instead of panicking on a type assertion.
+		return assemblerRepr(w.parent.AssembleValue())
 	default:
 		return _errorAssembler{fmt.Errorf("bindnode: too many values in listpairs field")}
 	}
